@@ -55,7 +55,7 @@ T = 100.0                      # total time of the closed-form families (s)
 FACTOR = 100.0                 # "within 100 x the user tolerance"
 REL_TRANSFER = 1e-6            # C02's tolerance for the transfer relation (relative to the element's inventory)
 
-INTEGRATORS = ["rk1", "rk2", "rk3", "rk6", "cv2s100", "cv5s100", "cv2s1000", "cv5s1000"]
+INTEGRATORS = ["rk1", "rk2", "rk3", "rk6", "cv2s100", "cv5s100", "cv2s1000", "cv5s1000", "rk3d4", "rk1d25", "rk2d4", "rk6d25", "rk3d0.01"]   # rkNdM = -runge_kutta N with -step_divide M
 REF_INTEG = "rk6"
 REF_BSM = 500
 BATCH_DIVS = ["1", "2", "7", "L"]
@@ -68,13 +68,17 @@ LIST_INC = [0.1, 0.2, 0.3, 0.4]
 def integ_label(integ):
     """Fingerprint label: the integrator class (cvode's step cap is not part of the mechanism)."""
     if integ.startswith("rk"):
+        if "d" in integ:
+            o, d = integ[2:].split("d")
+            return "rk%s-step_divide%s1" % (o, ">" if float(d) > 1 else "<")
         return "rk%s" % integ[2:]
     return "cvode-order%s" % integ[2]
 
 
 def integ_text(integ, bsm):
     if integ.startswith("rk"):
-        t = " -runge_kutta %s\n" % integ[2:]
+        o, _, d = integ[2:].partition("d")
+        t = " -runge_kutta %s\n" % o + (" -step_divide %s\n" % d if d else "")
     else:
         order, steps = integ[2], integ.split("s")[1]
         t = " -cvode true\n -cvode_order %s\n -cvode_steps %s\n" % (order, steps)
@@ -455,7 +459,7 @@ def run_case(case):
 
 
 # ------------------------------------------------------------------------------------------------ lattice
-QUICK_INTEGRATORS = ["rk1", "rk2", "rk3", "rk6", "cv5s100", "cv2s100"]
+QUICK_INTEGRATORS = ["rk1", "rk2", "rk3", "rk6", "cv5s100", "cv2s100", "rk3d4", "rk1d25", "rk3d0.01"]
 AUTONOMOUS = ["zero", "first", "two", "chain", "approach"]
 
 
@@ -480,20 +484,20 @@ def cases(tier):
     if tier == "quick":
         bounds.append(("DIAGNOSTIC ONLY (not judged) explicit-time law: kT 0.01 x tol 1e-6 x {rk1, rk3, cvode 5}",
                        lattice(["tdep"], ["batch"], ["rk1", "rk3", "cv5s100"], [500], [1.0], [0.01], [1e-6])))
-        bounds.append(("closed forms, batch: 5 families x kT {0.01,1,10} x tol {1e-6,1e-8,1e-10} x 6 integrators (rk 1/2/3/6, cvode order 5 and 2; m0 1, bad_step_max 500) x 4 divisions x 2 incremental",
+        bounds.append(("closed forms, batch: 5 families x kT {0.01,1,10} x tol {1e-6,1e-8,1e-10} x 9 integrators (rk 1/2/3/6, cvode order 5 and 2, rk3 and rk1 with -step_divide 4 / 25 / 0.01; m0 1, bad_step_max 500) x 4 divisions x 2 incremental",
                        lattice(AUTONOMOUS, ["batch"], QUICK_INTEGRATORS, [500], [1.0])))
         bounds.append(("closed forms inside ADVECTION and TRANSPORT time steps: {zero, first} x 3 kT x 3 tol x {rk3, rk6, cvode 5} x shift counts {1,2,7} x 2 incremental",
                        lattice(["zero", "first"], ["adv", "trn"], ["rk3", "rk6", "cv5s100"], [500], [1.0])))
-        bounds.append(("shipped rates Calcite, Pyrite: tol 1e-8 x 6 integrators x 4 divisions x 2 incremental (invariances only)",
+        bounds.append(("shipped rates Calcite, Pyrite: tol 1e-8 x 9 integrators x 4 divisions x 2 incremental (invariances only)",
                        shipped(["Calcite", "Pyrite"], QUICK_INTEGRATORS, [1e-8])))
     else:
         bounds.append(("DIAGNOSTIC ONLY (not judged) explicit-time law: kT {0.01,1} x tol {1e-6,1e-8} x {rk1, rk2, rk3, rk6, cvode 5}",
                        lattice(["tdep"], ["batch"], ["rk1", "rk2", "rk3", "rk6", "cv5s100"], [500], [1.0], [0.01, 1.0], [1e-6, 1e-8])))
-        bounds.append(("closed forms, batch: 5 families x 3 kT x 3 tol x 8 integrators (+ cvode_steps 1000) x bad_step_max {500,10} x m0 {1, 0.001} x 4 divisions x 2 incremental",
+        bounds.append(("closed forms, batch: 5 families x 3 kT x 3 tol x 13 integrators (+ cvode_steps 1000) x bad_step_max {500,10} x m0 {1, 0.001} x 4 divisions x 2 incremental",
                        lattice(AUTONOMOUS, ["batch"], INTEGRATORS, [500, 10], [1.0, 1e-3])))
-        bounds.append(("closed forms inside ADVECTION and TRANSPORT time steps: {zero, first, two, chain} x 3 kT x 3 tol x 8 integrators x shift counts {1,2,7} x 2 incremental",
+        bounds.append(("closed forms inside ADVECTION and TRANSPORT time steps: {zero, first, two, chain} x 3 kT x 3 tol x 13 integrators x shift counts {1,2,7} x 2 incremental",
                        lattice(["zero", "first", "two", "chain"], ["adv", "trn"], INTEGRATORS, [500], [1.0])))
-        bounds.append(("shipped rates Calcite, Pyrite, Organic_C, K-feldspar: 3 tol x 8 integrators x 4 divisions x 2 incremental (invariances only)",
+        bounds.append(("shipped rates Calcite, Pyrite, Organic_C, K-feldspar: 3 tol x 13 integrators x 4 divisions x 2 incremental (invariances only)",
                        shipped(["Calcite", "Pyrite", "Organic_C", "K-feldspar"], INTEGRATORS, [1e-6, 1e-8, 1e-10])))
     return bounds
 
